@@ -1899,14 +1899,20 @@ int fb_gen_c_reader(fb_output_t *out)
     for (ct = out->S->ordered_structs; ct; ct = ct->order) {
             gen_struct(out, ct);
     }
+    /* Unions must come before tables: a table may refer to a union declared later. */
+    for (sym = out->S->symbols; sym; sym = sym->link) {
+        switch (sym->kind) {
+        case fb_is_union:
+            gen_enum(out, (fb_compound_type_t *)sym);
+            break;
+        }
+    }
     for (sym = out->S->symbols; sym; sym = sym->link) {
         switch (sym->kind) {
         case fb_is_enum:
         case fb_is_struct:
-            /* Already generated. */
-            break;
         case fb_is_union:
-            gen_enum(out, (fb_compound_type_t *)sym);
+            /* Already generated. */
             break;
         case fb_is_table:
             gen_table(out, (fb_compound_type_t *)sym);
